@@ -98,6 +98,26 @@ def mk_se(tu):
     return SymExec(tu, own=lambda f: f['q'].startswith('rkcommon::'), inline_stmt=follow_c10, recognise_search=True)
 
 
+def is_followed_helper(tu, f, class_fns):
+    """private member that the path summariser splices into its callers and that some other member of the class calls: it is
+    never an entry point, so the path rules (insert only after a failed lookup, derived-state obligations) judge it inside its
+    callers' paths, with their conditions"""
+    if f.get('access') != 'private' or f.get('ctor') or f.get('dtor') or not follow_c10(f):
+        return False
+    for g_ in class_fns:
+        if g_ is f:
+            continue
+        cfg = tu.cfg(g_)
+        if cfg is None:
+            continue
+        for b, i, x in cfg.stmts():
+            if x.get('kind') in ('CXXMemberCallExpr', 'CallExpr', 'CXXOperatorCallExpr'):
+                sd = tu.sd(x)
+                if (sd.get('def') or sd.get('d')) == f['id']:
+                    return True
+    return False
+
+
 def short(q):
     return q.replace('rkcommon::containers::', '').replace('rkcommon::utility::', '')
 
@@ -319,6 +339,8 @@ def check_sequence_rules(ctx, tu, se, seq, fns, file_of, tag, counts):
     R1, R2 = 'R-C10-1', 'R-C10-2'
     S = seq.S
     for f in fns:
+        if is_followed_helper(tu, f, fns):
+            continue
         inst = inst_name(f) + tag
         pname = pattern_name(tu, f)
         loc = tu.fn_loc(f)
@@ -934,6 +956,12 @@ def check_paramobj(ctx, tu, tag=''):
                     sv = versions_in(rv).get(S, set())
                     if any(v != se.version_in(p.ver, S) for v in sv):
                         probs.append(('added-wrong-result', 'the returned element is read before the new parameter is appended'))
+                elif elem is not None and rvu in (('call', 'std::__shared_ptr::get', elem), ('addr', ('deref', elem))) and not has_unknown(elem) \
+                        and isinstance(elem, tuple) and elem[:2] == ('call', 'std::make_shared') \
+                        and len([e for e in p.events if e.kind == 'call' and base_name(e.how or '') == 'std::make_shared']) == 1:
+                    # one allocation on this path: the pointer was taken from the very shared_ptr that is then moved into the list
+                    # (moving a shared_ptr does not move its pointee)
+                    pass
                 elif elem is not None and rvu in (('call', 'std::__shared_ptr::get', elem), ('addr', ('deref', elem))) and not has_unknown(elem):
                     und.append(('added-wrong-result', 'findParam returns a pointer obtained from `%s`; cannot tell whether it is the appended object' % show(elem)))
                 else:
@@ -1348,6 +1376,8 @@ def check_aux_state(ctx, tu, se, seq, fns, r, finder, aux_names, info, names, ta
         return out
 
     for f in fns:
+        if is_followed_helper(tu, f, fns):
+            continue
         try:
             paths = se.paths(f)
         except Unsupported:
